@@ -25,10 +25,18 @@ def het(n, base, step):
     return [round(base + step * j, 4) for j in range(n)]
 
 
+SCALAR_POPS = ()    # populations whose rate parameter is given as ONE scalar for all units (set per case)
+
+
 def pop_params(pop, n):
     op, sv, iv, kv = POPOP[pop]
     off = {'e': 0.0, 'i': 0.37, 'f': 0.71}[pop]
-    return {f'{op}/{kv}': het(n, 1.0 + off, 0.5), f'{op}/{sv}': het(n, 0.2 + off, 0.15)}
+    k = 1.75 + off if pop in SCALAR_POPS else het(n, 1.0 + off, 0.5)
+    return {f'{op}/{kv}': k, f'{op}/{sv}': het(n, 0.2 + off, 0.15)}
+
+
+def at(v, j):
+    return v[j] if isinstance(v, (list, tuple)) else v
 
 
 def cases(tier, seed):
@@ -107,6 +115,12 @@ def cases(tier, seed):
                                    {'src': 'i', 'tgt': 'e', 'W': Wb, 'edge': kind, 'edge_vals': v2}], f'two_{kind}_edges')
             add({'e': 2, 'i': 2}, [{'src': 'i', 'tgt': 'e', 'W': Wb, 'edge': kind, 'edge_vals': v2},
                                    {'src': 'e', 'tgt': 'i', 'W': W, 'edge': kind, 'edge_vals': v1}], f'two_{kind}_edges')
+    # a scalar entry in PopulationTemplate.params next to per-unit lists (broadcast to all units)
+    for W in list(mats(2, 3, full=False))[2:8]:
+        for sc in (['e'], ['i'], ['e', 'i']):
+            add({'e': 3, 'i': 2}, [{'src': 'e', 'tgt': 'i', 'W': W}, {'src': 'i', 'tgt': 'e', 'W': [[1.5, -0.5], [0.25, 2.0], [0.0, 1.0]]}],
+                'scalar_param')
+            out[-1]['scalar_pops'] = sc
     for s1, s2 in ((0.5, 0.7), (0.5, None)):
         c2 = {'src': 'e', 'tgt': 'i', 'W': [[1.5, -0.5], [0.25, 2.0]], 'delay': 1.0}
         if s2:
@@ -133,7 +147,7 @@ def reference(case):
         op, sv, iv, kv = POPOP[pop]
         pp = pop_params(pop, n)
         for j in range(n):
-            nodes[f'{pop}_{j}'] = [(op, {kv: pp[f'{op}/{kv}'][j], sv: pp[f'{op}/{sv}'][j]})]
+            nodes[f'{pop}_{j}'] = [(op, {kv: at(pp[f'{op}/{kv}'], j), sv: pp[f'{op}/{sv}'][j]})]
     etpls = {}
     for ci, c in enumerate(case['conns']):
         s, t = c['src'], c['tgt']
@@ -170,7 +184,7 @@ def build_pop(case):
     for pop, n in case['pops'].items():
         op = POPOP[pop][0]
         pops[pop] = PopulationTemplate(name=pop, node=NodeTemplate(f'node_{pop}', operators=[ops[op]]), n=n,
-                                       params={k: list(v) for k, v in pop_params(pop, n).items()})
+                                       params={k: (list(v) if isinstance(v, list) else v) for k, v in pop_params(pop, n).items()})
     conns = []
     for c in case['conns']:
         s, t = c['src'], c['tgt']
@@ -201,7 +215,7 @@ def build_explicit(case):
         op, sv, iv, kv = POPOP[pop]
         pp = pop_params(pop, n)
         for j in range(n):
-            nodes[f'{pop}_{j}'] = NodeTemplate(f'{pop}_{j}', operators={ops[op]: {kv: pp[f'{op}/{kv}'][j], sv: pp[f'{op}/{sv}'][j]}})
+            nodes[f'{pop}_{j}'] = NodeTemplate(f'{pop}_{j}', operators={ops[op]: {kv: at(pp[f'{op}/{kv}'], j), sv: pp[f'{op}/{sv}'][j]}})
     c = CircuitTemplate('explicit', nodes=nodes)
     for cn in case['conns']:
         s, t = cn['src'], cn['tgt']
@@ -217,6 +231,8 @@ def build_explicit(case):
 
 def run_case(case):
     from .. import impl, pool, values
+    global SCALAR_POPS
+    SCALAR_POPS = tuple(case.get('scalar_pops') or ())
     res = {'evals': 0}
     m = reference(case)
     feats = []
